@@ -62,9 +62,22 @@ class Replayer:
         self.max_steps = max_steps
 
     # -- one API call on a real diagram ---------------------------------
+    def proj(self, res):
+        return self.A.proj(res) if hasattr(self.A, "proj") else proj_diagram(res, self.A.names)
+
     def apply(self, real, c):
         m = self.A.m
         op, i, j, g = c["op"], c["i"], c["j"], c["g"]
+        if self.A.cls == "cat":
+            if op not in self.A.OPS:
+                raise ValueError("%s is not an operation of the free category" % op)
+            if op == "gen":
+                if i != 0:
+                    raise ValueError("offsets are zero in the free category")
+                return real >> self.lib[g - 1]
+            if op == "ctor":
+                b = self.lib[g - 1]
+                return m.Arrow(real.dom, b.cod, real.boxes + [b])
         if op == "gen":
             b = self.lib[g - 1]
             return real >> m.Id(real.cod[:i]) @ b @ m.Id(real.cod[i + len(b.dom):])
@@ -74,6 +87,11 @@ class Replayer:
             return type(real)(real.dom, cod, real.boxes + [b], real.offsets + [i]) \
                 if type(real).__name__ == "Diagram" else \
                 m.Diagram(real.dom, cod, real.boxes + [b], real.offsets + [i])
+        if op == "retype":
+            b = self.lib[g - 1]
+            ty = real.dom[:0] if j == 1 else (b.cod if i == 0 else b.dom)
+            dom, cod = (real.dom, ty) if i == 0 else (ty, real.cod)
+            return self.A.construct(real, dom, cod)
         if op == "then":
             return real >> self.lib[g - 1]
         if op == "thenSelf":
@@ -119,12 +137,12 @@ class Replayer:
                         break
             except (Exception, CallTimeout) as e:
                 exc = exc_name(e)
-            rec["steps"] = [proj_diagram(s, self.A.names) for s in steps]
+            rec["steps"] = [self.proj(s) for s in steps]
             rec["exc"], rec["res"] = exc, EMPTY_OBS
             return rec, (steps[-1] if steps else real)
         try:
             res = self.apply(real, c)
-            rec["exc"], rec["res"] = "", proj_diagram(res, self.A.names)
+            rec["exc"], rec["res"] = "", self.proj(res)
             if c["op"] == "foliate":
                 rec["aux"] = int(real.depth())
             return rec, res
@@ -138,6 +156,14 @@ class Replayer:
         L = len(self.lib)
         out = []
         gens = range(1, L + 1)
+        if self.A.cls == "cat":
+            for g in gens:
+                out += [call("gen", g=g), call("ctor", g=g), call("then", g=g), call("retype", i=0, g=g), call("retype", i=1, g=g)]
+            out += [call("thenSelf"), call("dagger"), call("dagger", g=1)]
+            rng_ = [NONE] + list(range(-(n + 1), n + 2))
+            out += [call("slice", i=i, j=j) for i in rng_ for j in rng_]
+            out += [call("index", i=i) for i in range(-(n + 1), n + 1)]
+            return out
         for g in gens:
             for o in range(0, w + 1):
                 out.append(call("gen", i=o, g=g))
@@ -146,6 +172,9 @@ class Replayer:
             out.append(call("then", g=g))
             out.append(call("tensorR", g=g))
             out.append(call("tensorL", g=g))
+            for side in (0, 1):
+                out.append(call("retype", i=side, g=g))
+        out += [call("retype", i=0, j=1, g=1), call("retype", i=1, j=1, g=1)]
         out += [call("thenSelf"), call("tensorSelf"), call("dagger"), call("dagger", g=1)]
         rng_ = [NONE] + list(range(-(n + 1), n + 2))
         for i in rng_:
@@ -173,7 +202,7 @@ class Replayer:
             if c["op"] == "interchange" and res is not None and abs(c["i"] - c["j"]) == 1:
                 neighbours.append((len(calls), res))
         for l in (0, 1):
-            if TIMEOUTS[0] >= TIMEOUT_BUDGET:
+            if TIMEOUTS[0] >= TIMEOUT_BUDGET or self.A.cls == "cat":
                 break
             rec, nf = self.observe(real, call("normal_form", g=l))
             calls.append(rec)
@@ -235,6 +264,8 @@ class Replayer:
         real = self.A.build(d0, 1)
         calls, cur = [], 0
         for c in steps:
+            if self.A.cls == "cat" and c["op"] not in self.A.OPS:
+                continue        # e.g. normal_form of a path: a stuttering step of the model, not an operation of cat
             c = dict(c)
             c.update(p=cur, ref=0, aux=0)
             rec, res = self.observe(real, c)
